@@ -718,4 +718,148 @@ theorem Young.run {clk : Int} {c : CSt D} (hc : Young clk c) (ops : List (COp D)
   | nil => exact hc
   | cons op ops ih => exact ih (hc.step op hm.1) hm.2
 
+
+/-! ## `insert_many` after its first upsert; single operations -/
+
+def insertManyFrom (c : CSt D) (now : Int) (b : String) (ups rows : List (Ev D)) :
+    Except Err (CSt D) × CSt D :=
+  match Commit.insertRows (upserts c now b ups) now b rows with
+  | (.error x, c2) => (.error x, c2)
+  | (.ok c2, _) => (.ok (Commit.condCommit c2 rows.length now), Commit.condCommit c2 rows.length now)
+
+theorem insertMany_eq_from (c : CSt D) (now : Int) (b : String) (es : List (Ev D)) :
+    Commit.insertMany c now b es =
+      insertManyFrom c now b (es.filter (fun e => e.id.isSome)) (es.filter (fun e => e.id.isNone)) := rfl
+
+/-- `insert_many` whose first upsert is `e` is that upsert (a `replace` with its own conditional
+    commit) followed by `insert_many` of the remaining upserts and the rows -/
+theorem insertMany_first_upsert (c : CSt D) (now : Int) (b : String) (es : List (Ev D))
+    (e : Ev D) (rest : List (Ev D)) (h : es.filter (fun e => e.id.isSome) = e :: rest) :
+    Commit.insertMany c now b es =
+      Commit.insertMany (Commit.replace c now b (e.id.getD 0) e) now b
+        (rest ++ es.filter (fun e => e.id.isNone)) := by
+  have hr : ∀ x ∈ rest, x.id.isSome = true := by
+    intro x hx
+    have : x ∈ es.filter (fun e => e.id.isSome) := by rw [h]; exact List.mem_cons_of_mem _ hx
+    exact (List.mem_filter.mp this).2
+  have e1 : (rest ++ es.filter (fun e => e.id.isNone)).filter (fun e => e.id.isSome) = rest := by
+    rw [List.filter_append, List.filter_filter]
+    have : List.filter (fun a => a.id.isSome && a.id.isNone) es = [] := by
+      apply List.filter_eq_nil_iff.mpr
+      intro a _; cases a.id <;> simp
+    rw [this, List.append_nil]
+    exact List.filter_eq_self.mpr hr
+  have e2 : (rest ++ es.filter (fun e => e.id.isNone)).filter (fun e => e.id.isNone) =
+      es.filter (fun e => e.id.isNone) := by
+    rw [List.filter_append, List.filter_filter]
+    have : List.filter (fun e => e.id.isNone) rest = [] := by
+      apply List.filter_eq_nil_iff.mpr
+      intro a ha; have := hr a ha; cases h' : a.id <;> simp [h'] at this ⊢
+    rw [this, List.nil_append]
+    congr 1; funext a; simp
+  rw [insertMany_eq_from, insertMany_eq_from, h, e1, e2]
+  rfl
+
+/-- the elementary writes of that `insert_many`, split the same way -/
+theorem elems_insertMany_first_upsert (s : Sqlite.St D) (now : Int) (b : String) (es : List (Ev D))
+    (e : Ev D) (rest : List (Ev D)) (h : es.filter (fun e => e.id.isSome) = e :: rest) :
+    elems s (.insertMany now b es) =
+      Sqlite.replace s b (e.id.getD 0) e ::
+        upsertStates (Sqlite.replace s b (e.id.getD 0) e) b rest ++
+        rowStates (lastD (Sqlite.replace s b (e.id.getD 0) e) (upsertStates (Sqlite.replace s b (e.id.getD 0) e) b rest)) b
+          (es.filter (fun e => e.id.isNone)) := by
+  simp only [elems, h, upsertStates, List.cons_append]
+  congr 2
+  cases hh : upsertStates (Sqlite.replace s b (e.id.getD 0) e) b rest with
+  | nil => simp [lastD]
+  | cons x xs => simp [lastD, List.getLast?_cons_cons, List.getLast?_eq_some_getLast (l := x :: xs) (by simp)]
+
+/-- a single event write leaves `dur` where it was or moves it to the new `cur` -/
+theorem evw_atomic (c : CSt D) (s : Sqlite.St D) (now : Int) :
+    (Commit.condCommit (Commit.wrote c s now) 1 now).dur = c.dur ∨
+    (Commit.condCommit (Commit.wrote c s now) 1 now).dur = (Commit.condCommit (Commit.wrote c s now) 1 now).cur := by
+  rcases condCommit_cases (Commit.wrote c s now) 1 now with ⟨hc, _, h | h⟩
+  · right; rw [h.1, hc]
+  · left; rw [h.1]; rfl
+
+
+/-- the start of a history: a freshly opened store — nothing uncommitted -/
+def Init (c0 : CSt D) : Prop := c0.dur = c0.cur ∧ c0.pend = [] ∧ c0.n = 0
+
+theorem Init.bnd {c0 : CSt D} (h : Init c0) (hl : c0.lazy = true) : Bnd c0 :=
+  ⟨hl, by simp [h.2.1], by simp [h.2.2]⟩
+theorem Init.eager {c0 : CSt D} (h : Init c0) (hl : c0.lazy = false) : Eager c0 := ⟨hl, h.1, h.2.1⟩
+theorem Init.clean {c0 : CSt D} (h : Init c0) : Clean c0 := fun _ => ⟨h.1, h.2.1⟩
+theorem Init.young {c0 : CSt D} (h : Init c0) : Young c0.last c0 :=
+  ⟨Int.le_refl _, by simp [h.2.1]⟩
+
+
+/-! ## flushed states -/
+
+theorem condCommit_eager' (c : CSt D) (k : Nat) (now : Int) (hl : c.lazy = false) :
+    (Commit.condCommit c k now).dur = (Commit.condCommit c k now).cur ∧
+    (Commit.condCommit c k now).pend = [] := by
+  obtain ⟨e1, e2, _⟩ := condCommit_eager c k now hl
+  exact ⟨by rw [e1, (condCommit_cases c k now).1], e2⟩
+
+theorem condCommit_age' (c : CSt D) (k : Nat) (now : Int) (ha : now - c.last > 10000000) :
+    (Commit.condCommit c k now).dur = (Commit.condCommit c k now).cur ∧
+    (Commit.condCommit c k now).pend = [] ∧ (Commit.condCommit c k now).last = now := by
+  obtain ⟨e1, e2, e3, _⟩ := condCommit_age c k now ha
+  exact ⟨by rw [e1, (condCommit_cases c k now).1], e2, e3⟩
+
+theorem cstep_lazy (c : CSt D) (op : COp D) : (cstep c op).lazy = c.lazy := by
+  refine cstep_induct (fun c' => c'.lazy = c.lazy) op.now ?_ ?_ ?_ ?_ ?_ ?_ c op rfl rfl
+  · intro c' s h; rw [(condCommit_cases _ 1 op.now).2.1]; exact h
+  · intro c' s h; exact h
+  · intro c' h; exact h
+  · intro c' h; exact h
+  · intro c' h; exact h
+  · intro c' b rows h _
+    rw [(condCommit_cases _ _ op.now).2.1, (insertRows_fields c' op.now b rows).2.2.1]; exact h
+
+theorem insertManyMid_lazy (c : CSt D) (now : Int) (b : String) (es : List (Ev D)) :
+    (insertManyMid c now b es).lazy = c.lazy := by
+  have hu : ∀ (ups : List (Ev D)) (c : CSt D), (upserts c now b ups).lazy = c.lazy := by
+    intro ups
+    induction ups with
+    | nil => intro c; rfl
+    | cons e es ih => intro c; rw [upserts_cons, ih]; exact cstep_lazy c (.replace now b (e.id.getD 0) e)
+  rw [insertManyMid, (insertRows_fields _ now b _).2.2.1]
+  exact hu _ _
+
+/-- an event-write operation that returns ends with a `conditional_commit` at its clock reading -/
+theorem evwrite_form (c : CSt D) (op : COp D) (h : op.isEventWrite = true) (hok : cok c op = true) :
+    ∃ m k, cstep c op = Commit.condCommit m k op.now ∧ m.lazy = c.lazy := by
+  cases op with
+  | insertMany now b es =>
+    exact ⟨_, _, insertMany_ok _ _ _ _ hok, insertManyMid_lazy c now b es⟩
+  | insertOne now b e =>
+    rcases single_form c (.insertOne now b e) rfl with ⟨_, s, _, e'⟩ | ⟨e', _⟩
+    · exact ⟨_, _, e', rfl⟩
+    · rw [e'] at hok; cases hok
+  | replace now b i e => exact ⟨_, _, rfl, rfl⟩
+  | replaceLast now b e => exact ⟨_, _, rfl, rfl⟩
+  | delete now b i => exact ⟨_, _, rfl, rfl⟩
+  | _ => simp [COp.isEventWrite] at h
+
+
+/-! ## concrete states for the non-vacuity examples -/
+namespace Ex
+
+def meta0 : Meta := ⟨none, "t", "c", "h", "2020-01-01T00:00:00+00:00", "{}"⟩
+/-- one bucket `"b"`, no events -/
+def s0 : Sqlite.St Nat := { buckets := [⟨1, "b", meta0⟩], seqB := 1 }
+/-- a freshly opened lazy store, last commit at clock 0 -/
+def c0 : CSt Nat := { cur := s0, dur := s0 }
+/-- the same, auto-committing -/
+def c0e : CSt Nat := { cur := s0, dur := s0, lazy := false }
+def ev (k : Nat) : Ev Nat := { ts := 1000 * k, dur := 1000, data := k }
+def evId (i : Int) (k : Nat) : Ev Nat := { id := some i, ts := 1000 * k, dur := 1000, data := k }
+
+theorem init_c0 : Init c0 := ⟨rfl, rfl, rfl⟩
+theorem init_c0e : Init c0e := ⟨rfl, rfl, rfl⟩
+
+end Ex
+
 end AwProofs.CommitL
